@@ -278,7 +278,7 @@ Definition mt204_one_cent_reported : jv :=
 Theorem mt204_c1_other_cent_reported : has_code "C01" (validate_rules (bs "MT204") mt204_one_cent_reported false) = true.
 Proof. vm_compute. reflexivity. Qed.
 
-(* MT103 C6 documents "if 23B contains SSTD or SPAY, 56a may be used with option A or C only (E17)": with option D nothing is reported *)
+(* MT103 C6, E17: option D of 56a with 23B = SSTD is reported (it was not before fix: f23b9de) *)
 Definition mt103_sstd_56d : jv :=
   o [("20", o [("reference", s "REF")]); ("23B", o [("instruction_code", s "SSTD")]);
      ("32A", o [("amount", n "1000.0"); ("currency", s "USD"); ("value_date", s "2026-09-30")]);
@@ -286,7 +286,5 @@ Definition mt103_sstd_56d : jv :=
      ("56D", o [("name_and_address", JArr [s "BANK"]); ("party_identifier", JNull)]);
      ("57A", o [("bic", s "DEUTDEFF")]); ("59", o [("account", s "2"); ("name_and_address", JArr [s "JANE"])]);
      ("71A", o [("code", s "SHA")])].
-Theorem mt103_e17_refuted :
-  is (b23 mt103_sstd_56d) "SSTD" = true /\ present (mt103_sstd_56d ./ "56D") = true
-  /\ validate_rules (bs "MT103") mt103_sstd_56d false = [].
-Proof. repeat split; vm_compute; reflexivity. Qed.
+Theorem mt103_e17_reported : has_code "E17" (validate_rules (bs "MT103") mt103_sstd_56d false) = true.
+Proof. vm_compute. reflexivity. Qed.
